@@ -1135,13 +1135,17 @@ Section Concrete.
     assert (A : all_vs (if (0 <? c_n c)%Z then qset k_n (VN (Z.to_N (c_n c))) (u_query u) else u_query u) /\
                 query_ok (if (0 <? c_n c)%Z then qset k_n (VN (Z.to_N (c_n c))) (u_query u) else u_query u)).
     { destruct (0 <? c_n c)%Z eqn:E; [|split; assumption]. apply Z.ltb_lt in E. unfold qset. split.
-      - constructor; [|now apply Forall_qdel]. left. split; [reflexivity|]. eexists. split; [reflexivity|]. lia.
-      - constructor; [|now apply Forall_qdel]. split; [apply k_n_ok|apply itoa_ok]. }
+      - apply Forall_app. split; [now apply Forall_qdel|]. constructor; [|constructor].
+        left. split; [reflexivity|]. eexists. split; [reflexivity|]. lia.
+      - apply Forall_app. split; [now apply Forall_qdel|]. constructor; [|constructor].
+        split; [apply k_n_ok|apply itoa_ok]. }
     destruct A as [A1 A2].
     destruct (sends_last (c_kind c) && negb (is_empty last)); [|split; assumption].
     unfold qset. split.
-    - constructor; [|now apply Forall_qdel]. right. split; [intro E; symmetry in E; now apply k_n_neq_last in E|now eexists].
-    - constructor; [|now apply Forall_qdel]. split; [apply k_last_ok|exact Hl].
+    - apply Forall_app. split; [now apply Forall_qdel|]. constructor; [|constructor].
+      right. split; [intro E; symmetry in E; now apply k_n_neq_last in E|now eexists].
+    - apply Forall_app. split; [now apply Forall_qdel|]. constructor; [|constructor].
+      split; [apply k_last_ok|exact Hl].
   Qed.
 
   Theorem concrete_exactly_once last0 fuel :
